@@ -35,6 +35,17 @@ class Unit:
         self.name, self.path, self.rel, self.src = name, path, rel, src
         self.tree = ast.parse(src, path)
         from . import alpha
+        # items that are provably equivalent (equal normal forms) to their counterpart in the reference tree are analysed in the reference
+        # shape the rules were confirmed on (pv/equiv.py); everything else is analysed as it stands
+        self.equiv = (0, 0, [])
+        if not os.environ.get("PV_NO_EQUIV"):
+            from . import equiv
+            ref = equiv.anchor_tree(rel)
+            if ref is not None:
+                try:
+                    self.equiv = equiv.substitute(self.tree, ref)
+                except RecursionError:
+                    self.equiv = (0, 0, ["<recursion>"])
         self.logging_stripped = alpha.strip_logging(self.tree)
         self.docstrings_stripped = alpha.strip_docstrings(self.tree)
         self.alpha_renamed = alpha.apply(self.tree, alpha.load().get(name)) if not os.environ.get("PV_NO_ALPHA") else 0
